@@ -759,11 +759,12 @@ def _build_result_schema(result_type: object) -> pa.Schema:
         return _EMPTY_SCHEMA
 
     # ArrowSerializableDataclass — serialize whole dataclass as binary blob
-    base = _unwrap_annotated(result_type)
+    # (also when declared optional: ``Point | None`` travels as nullable binary)
+    inner, is_nullable = _is_optional_type(result_type)
+    base = _unwrap_annotated(inner)
     if isinstance(base, type) and issubclass(base, ArrowSerializableDataclass):
         return pa.schema([pa.field("result", pa.binary())])
 
-    inner, is_nullable = _is_optional_type(result_type)
     arrow_type = _infer_arrow_type(inner)  # handles Annotated natively
     return pa.schema([pa.field("result", arrow_type, nullable=is_nullable)])
 
